@@ -179,10 +179,10 @@ Definition chk_area_flux3 (t : ftab) : bool :=
   negb (is3d t) ||
   (let fs := face_cycles t in
    pvec_eqb (pvsum (map area2 fs)) pzero &&
-   pe_eqb (pe_sum (map flux2 fs)) (PEmul (PEc 6) (measure_star (parent_elem t))) &&
+   pe_eqb (pe_sum (map flux2 fs)) (PEmul (PEc 6%Q) (measure_star (parent_elem t))) &&
    (* same for the contours of `surfaces` *)
    pvec_eqb (pvsum (map area2 (surf_cycles t))) pzero &&
-   pe_eqb (pe_sum (map flux2 (surf_cycles t))) (PEmul (PEc 6) (measure_star (parent_elem t)))).
+   pe_eqb (pe_sum (map flux2 (surf_cycles t))) (PEmul (PEc 6%Q) (measure_star (parent_elem t)))).
 
 Lemma all_area_flux3 : forallb chk_area_flux3 all_ftabs = true.
 Proof. vm_compute. reflexivity. Qed.
@@ -209,18 +209,15 @@ Theorem face_tables_close : forall t, In t all_ftabs -> fdim t = 3 -> forall l :
 Proof.
   intros t Ht Hd l. pose proof (forallb_In _ _ all_area_flux3 t Ht) as H.
   unfold chk_area_flux3, is3d in H. rewrite Hd in H. simpl in H.
-  repeat (apply andb_true_iff in H; destruct H as [H ?]).
+  apply andb_true_iff in H as [H H4]. apply andb_true_iff in H as [H H3]. apply andb_true_iff in H as [H1 H2].
   assert (Z0 : Rv l pzero = (0, 0, 0)%R) by (unfold Rv, pzero, pn, Reval; simpl; reflexivity).
-  assert (S6 : forall e, Reval l (PEmul (PEc 6) e) = (6 * Reval l e)%R).
+  assert (S6 : forall e, Reval l (PEmul (PEc 6%Q) e) = (6 * Reval l e)%R).
   { intro e. unfold Reval. simpl. f_equal. unfold Q2R. simpl. lra. }
   repeat split.
-  - rewrite <- Rv_pvsum. rewrite (pvec_eqb_sound _ _ H l). exact Z0.
-  - match goal with H1 : pe_eqb (pe_sum (map flux2 (face_cycles t))) _ = true |- _ =>
-      apply (Qnorm_sound l) in H1; rewrite Reval_pe_sum, S6 in H1; exact H1 end.
-  - rewrite <- Rv_pvsum. match goal with H1 : pvec_eqb (pvsum (map area2 (surf_cycles t))) _ = true |- _ =>
-      rewrite (pvec_eqb_sound _ _ H1 l) end. exact Z0.
-  - match goal with H1 : pe_eqb (pe_sum (map flux2 (surf_cycles t))) _ = true |- _ =>
-      apply (Qnorm_sound l) in H1; rewrite Reval_pe_sum, S6 in H1; exact H1 end.
+  - rewrite <- Rv_pvsum. rewrite (pvec_eqb_sound _ _ H1 l). exact Z0.
+  - apply (Qnorm_sound l) in H2. rewrite Reval_pe_sum, S6 in H2. exact H2.
+  - rewrite <- Rv_pvsum. rewrite (pvec_eqb_sound _ _ H3 l). exact Z0.
+  - apply (Qnorm_sound l) in H4. rewrite Reval_pe_sum, S6 in H4. exact H4.
 Qed.
 
 (* readable instance: TETRA4, volume = det[X1-X0, X2-X0, X3-X0] / 6 *)
@@ -233,8 +230,8 @@ Proof.
   assert (H : pe_eqb (measure_star el_TETRA4)
      (PEmul (PEc (1#6)) (ptriple (psub (node_vec 1) (node_vec 0)) (psub (node_vec 2) (node_vec 0)) (psub (node_vec 3) (node_vec 0)))) = true)
     by (vm_compute; reflexivity).
-  rewrite (Qnorm_sound l _ _ H). unfold Reval at 1. simpl PEeval. fold (Reval l).
-  change (PEeval 0%R 1%R Rplus Rmult Rminus Ropp Q2R N.to_nat pow l ?e) with (Reval l e).
+  rewrite (Qnorm_sound l _ _ H).
+  change (Reval l (PEmul (PEc (1#6)) ?e)) with (Q2R (1#6) * Reval l e)%R.
   rewrite Reval_triple, !Rv_sub. unfold Q2R. simpl. lra.
 Qed.
 
@@ -245,17 +242,17 @@ Qed.
 Definition normal_field (e : elem) : pvec := pcross (Frow e 0) (Frow e 1).
 Definition vrule_sum (r : rule) (v : pvec) : pvec := [rule_sum r (pn v 0); rule_sum r (pn v 1); rule_sum r (pn v 2)].
 Definition chk_face_integrals (e : elem) (f : list nat) : bool :=
-  pvec_eqb (pscale (PEc 2) (vrule_sum (star_of (ename e)) (normal_field e))) (area2 f) &&
-  pe_eqb (PEmul (PEc 2) (rule_sum (star_of (ename e)) (pdot (xmap e) (normal_field e)))) (flux2 f).
+  pvec_eqb (pscale (PEc 2%Q) (vrule_sum (star_of (ename e)) (normal_field e))) (area2 f) &&
+  pe_eqb (PEmul (PEc 2%Q) (rule_sum (star_of (ename e)) (pdot (xmap e) (normal_field e)))) (flux2 f).
 
 Lemma face_integrals_ok : chk_face_integrals el_TRI3 [0; 1; 2] && chk_face_integrals el_QUAD4 [0; 1; 2; 3] = true.
 Proof. vm_compute. reflexivity. Qed.
 
 Theorem face_formulas_are_normal_integrals : forall l : list R,
-  Rv l (pscale (PEc 2) (vrule_sum star_Tri (normal_field el_TRI3))) = Rv l (area2 [0; 1; 2]) /\
-  Reval l (PEmul (PEc 2) (rule_sum star_Tri (pdot (xmap el_TRI3) (normal_field el_TRI3)))) = Reval l (flux2 [0; 1; 2]) /\
-  Rv l (pscale (PEc 2) (vrule_sum star_Quad (normal_field el_QUAD4))) = Rv l (area2 [0; 1; 2; 3]) /\
-  Reval l (PEmul (PEc 2) (rule_sum star_Quad (pdot (xmap el_QUAD4) (normal_field el_QUAD4)))) = Reval l (flux2 [0; 1; 2; 3]).
+  Rv l (pscale (PEc 2%Q) (vrule_sum star_Tri (normal_field el_TRI3))) = Rv l (area2 [0; 1; 2]) /\
+  Reval l (PEmul (PEc 2%Q) (rule_sum star_Tri (pdot (xmap el_TRI3) (normal_field el_TRI3)))) = Reval l (flux2 [0; 1; 2]) /\
+  Rv l (pscale (PEc 2%Q) (vrule_sum star_Quad (normal_field el_QUAD4))) = Rv l (area2 [0; 1; 2; 3]) /\
+  Reval l (PEmul (PEc 2%Q) (rule_sum star_Quad (pdot (xmap el_QUAD4) (normal_field el_QUAD4)))) = Reval l (flux2 [0; 1; 2; 3]).
 Proof.
   intro l. pose proof face_integrals_ok as H. apply andb_true_iff in H as [H1 H2].
   unfold chk_face_integrals in H1, H2. apply andb_true_iff in H1 as [A1 B1]. apply andb_true_iff in H2 as [A2 B2].
@@ -284,7 +281,7 @@ Definition chk_seg_flux (t : ftab) : bool :=
   (let es := map seg_ends (fsegments t) in
    pvec_eqb (pvsum (map (fun p => seg_normal_int (fst p) (snd p)) es)) pzero &&
    pe_eqb (flatten (pe_sum (map (fun p => seg_flux (fst p) (snd p)) es)))
-          (flatten (PEopp (PEmul (PEc 2) (measure_star (parent_elem t)))))).
+          (flatten (PEopp (PEmul (PEc 2%Q) (measure_star (parent_elem t)))))).
 Lemma all_seg_flux : forallb chk_seg_flux all_ftabs = true.
 Proof. vm_compute. reflexivity. Qed.
 
@@ -295,7 +292,7 @@ Proof. vm_compute. reflexivity. Qed.
 Theorem segment_tables_close : forall t, In t all_ftabs -> fdim t = 2 -> forall l : list R,
   Rv l (pvsum (map (fun p => seg_normal_int (fst p) (snd p)) (map seg_ends (fsegments t)))) = (0, 0, 0)%R /\
   Reval l (flatten (pe_sum (map (fun p => seg_flux (fst p) (snd p)) (map seg_ends (fsegments t))))) =
-  Reval l (flatten (PEopp (PEmul (PEc 2) (measure_star (parent_elem t))))).
+  Reval l (flatten (PEopp (PEmul (PEc 2%Q) (measure_star (parent_elem t))))).
 Proof.
   intros t Ht Hd l. pose proof (forallb_In _ _ all_seg_flux t Ht) as H.
   unfold chk_seg_flux in H. rewrite Hd in H. simpl in H. apply andb_true_iff in H as [H1 H2].
